@@ -99,7 +99,7 @@ struct HeapEngine : Engine {
     //------------------------------------------------------------ arena
     std::string init(const std::string& p, const std::string& t) override {
         prop = p; tier = t; g_eng = this;
-        { typedef const HOps* (*PF)(std::size_t*); PF parts[] = {heap_registry_part0, heap_registry_part1, heap_registry_part2, heap_registry_part3, heap_registry_part4, heap_registry_part5};
+        { typedef const HOps* (*PF)(std::size_t*); PF parts[] = {heap_registry_part0, heap_registry_part1, heap_registry_part2, heap_registry_part3, heap_registry_part4, heap_registry_part5, heap_registry_part6, heap_registry_part7};
           for (PF f : parts) { std::size_t k; const HOps* t = f(&k); regv.insert(regv.end(), t, t + k); } }
         reg = regv.data(); nreg = regv.size(); impl = heap_impl_name();
         void* a = mmap((void*)ARENA_BASE, ARENA_SIZE, PROT_NONE, MAP_PRIVATE | MAP_ANONYMOUS | MAP_NORESERVE | MAP_FIXED_NOREPLACE, -1, 0);
@@ -363,10 +363,10 @@ struct HeapEngine : Engine {
         if (c.preempted_inside) st->probes[std::string("preempted_inside_") + opname]++;
     }
 
-    const HOps* find_ops(unsigned S, unsigned A) { for (std::size_t i = 0; i < nreg; ++i) if (reg[i].S == S && reg[i].A == A) return &reg[i]; return nullptr; }
+    const HOps* find_ops(unsigned S, unsigned A, unsigned TA = 0) { if (!TA) TA = S; for (std::size_t i = 0; i < nreg; ++i) if (reg[i].S == S && reg[i].A == A && reg[i].TA == TA) return &reg[i]; return nullptr; }
 
     void do_alloc(const Step& s, int stepno) {
-        const HOps* o = find_ops((unsigned)s.num("S"), (unsigned)s.num("A")); if (!o) { rr->harness_error = "no such instantiation"; return; }
+        const HOps* o = find_ops((unsigned)s.num("S"), (unsigned)s.num("A"), (unsigned)s.num("TA")); if (!o) { rr->harness_error = "no such instantiation"; return; }
         std::size_t n = (std::size_t)s.num("n"); int how = (int)s.num("how");
         OpCtx c; void* p = nullptr;
         bool ok = avel_op(c, s, stepno, "allocate", [&] { p = how == 1 ? o->allocate_hint(n, (void*)0x10) : how == 2 ? o->allocate_rebound(n) : o->allocate(n); });
@@ -459,7 +459,7 @@ struct HeapEngine : Engine {
     }
 
     void do_misc(const Step& s, int stepno) {
-        const HOps* o = find_ops((unsigned)s.num("S"), (unsigned)s.num("A")); if (!o) return;
+        const HOps* o = find_ops((unsigned)s.num("S"), (unsigned)s.num("A"), (unsigned)s.num("TA")); if (!o) return;
         OpCtx c; bool r = true; if (!avel_op(c, s, stepno, "misc", [&] { r = o->misc(); })) return;
         rr->log.linef("%d misc S=%u A=%u -> %d", stepno, o->S, o->A, (int)r);
         post_op(c, stepno, "misc");
@@ -492,7 +492,7 @@ struct HeapEngine : Engine {
     void do_cont(const Step& s, int stepno) {
         const std::string& op = s.op; OpCtx c; unsigned char eb[64];
         if (op == "vnew" || op == "lnew") {
-            const HOps* o = find_ops((unsigned)s.num("S"), (unsigned)s.num("A")); if (!o || (op == "lnew" && !o->lnew)) { rr->log.linef("%d %s skipped", stepno, op.c_str()); return; }
+            const HOps* o = find_ops((unsigned)s.num("S"), (unsigned)s.num("A"), (unsigned)s.num("TA")); if (!o || (op == "lnew" && !o->lnew)) { rr->log.linef("%d %s skipped", stepno, op.c_str()); return; }
             ContP np = std::make_shared<Container>(); Container& ct = *np; ct.kind = op[0]; ct.ops = o; ct.h = nullptr;
             if (!avel_op(c, s, stepno, op.c_str(), [&] { ct.h = op[0] == 'v' ? o->vnew() : o->lnew(); })) return;
             conts.push_back(np); rr->log.linef("%d %s S=%u A=%u", stepno, op.c_str(), o->S, o->A); post_op(c, stepno, op.c_str()); return;
@@ -666,19 +666,19 @@ struct HeapEngine : Engine {
         std::int64_t res = res_of_class(sc.rcls, o.A); const char* tail = sc.tail ? "flush" : "slack";
         if (!sc.cont) {
             std::size_t n = n_of_class(sc.ncls, o.S, o.A);
-            Step a0 = base("alloc"); a0.set("S", o.S); a0.set("A", o.A); a0.set("n", 5); a0.set("res", 48); a0.set("tail", "slack"); out.steps.push_back(a0);
+            Step a0 = base("alloc"); a0.set("S", o.S); a0.set("A", o.A); if (o.TA != o.S) a0.set("TA", o.TA); a0.set("n", 5); a0.set("res", 48); a0.set("tail", "slack"); out.steps.push_back(a0);
             Step w0 = base("write"); w0.set("ref", 0); w0.set("pat", 255); out.steps.push_back(w0);
-            Step a1 = base("alloc"); a1.set("S", o.S); a1.set("A", o.A); a1.setu("n", n); a1.set("res", res); a1.set("tail", tail); a1.set("how", (int)(i % 3)); out.steps.push_back(a1);
+            Step a1 = base("alloc"); a1.set("S", o.S); a1.set("A", o.A); if (o.TA != o.S) a1.set("TA", o.TA); a1.setu("n", n); a1.set("res", res); a1.set("tail", tail); a1.set("how", (int)(i % 3)); out.steps.push_back(a1);
             Step w1 = base("write"); w1.set("ref", 1); w1.set("pat", (std::int64_t)(i % 254 + 1)); out.steps.push_back(w1);
-            Step a2 = base("alloc"); a2.set("S", o.S); a2.set("A", o.A); a2.setu("n", n + 1); a2.set("res", res); a2.set("tail", tail); a2.set("reuse", 1); out.steps.push_back(a2);
+            Step a2 = base("alloc"); a2.set("S", o.S); a2.set("A", o.A); if (o.TA != o.S) a2.set("TA", o.TA); a2.setu("n", n + 1); a2.set("res", res); a2.set("tail", tail); a2.set("reuse", 1); out.steps.push_back(a2);
             Step w2 = base("write"); w2.set("ref", 2); w2.set("pat", 0); out.steps.push_back(w2);
             Step d1 = base("dealloc"); d1.set("ref", 1); out.steps.push_back(d1);
-            Step a3 = base("alloc"); a3.set("S", o.S); a3.set("A", o.A); a3.setu("n", n); a3.set("res", res); a3.set("tail", tail); a3.set("reuse", 1); out.steps.push_back(a3);
+            Step a3 = base("alloc"); a3.set("S", o.S); a3.set("A", o.A); if (o.TA != o.S) a3.set("TA", o.TA); a3.setu("n", n); a3.set("res", res); a3.set("tail", tail); a3.set("reuse", 1); out.steps.push_back(a3);
             Step w3 = base("write"); w3.set("ref", 2); w3.set("pat", 77); out.steps.push_back(w3);
             out.steps.push_back(base("check"));
         } else {
-            Step m = base("misc"); m.set("S", o.S); m.set("A", o.A); out.steps.push_back(m);
-            Step v = base("vnew"); v.set("S", o.S); v.set("A", o.A); out.steps.push_back(v);
+            Step m = base("misc"); m.set("S", o.S); m.set("A", o.A); if (o.TA != o.S) m.set("TA", o.TA); out.steps.push_back(m);
+            Step v = base("vnew"); v.set("S", o.S); v.set("A", o.A); if (o.TA != o.S) v.set("TA", o.TA); out.steps.push_back(v);
             Step p = base("vpush"); p.set("c", 0); p.set("m", 37); p.set("val", (std::int64_t)i); p.set("res", res); p.set("tail", tail); p.set("reuse", "0,1"); out.steps.push_back(p);
             Step sh = base("vshrink"); sh.set("c", 0); sh.set("tail", "flush"); out.steps.push_back(sh);
             Step cp = base("vcopy"); cp.set("c", 0); cp.set("tail", tail); out.steps.push_back(cp);
@@ -687,7 +687,7 @@ struct HeapEngine : Engine {
             Step as = base("vassign"); as.set("c", 0); as.set("d", 1); as.set("tail", "flush"); out.steps.push_back(as);
             Step mv = base("vmove"); mv.set("c", 1); out.steps.push_back(mv);
             if (o.lnew) {
-                Step l = base("lnew"); l.set("S", o.S); l.set("A", o.A); out.steps.push_back(l);
+                Step l = base("lnew"); l.set("S", o.S); l.set("A", o.A); if (o.TA != o.S) l.set("TA", o.TA); out.steps.push_back(l);
                 Step lp = base("lpush"); lp.set("c", 3); lp.set("m", 9); lp.set("val", 5); lp.set("tail", "flush,slack"); lp.set("res", res); out.steps.push_back(lp);
                 Step lo = base("lpop"); lo.set("c", 3); lo.set("m", 4); lo.set("val", 2); out.steps.push_back(lo);
                 Step lq = base("lpush"); lq.set("c", 3); lq.set("m", 3); lq.set("val", 100); lq.set("reuse", 1); out.steps.push_back(lq);
@@ -703,9 +703,9 @@ struct HeapEngine : Engine {
         std::vector<std::int64_t> sc; for (int i = 0; i < 48; ++i) sc.push_back((std::int64_t)r.below(12)); out.head.setlist("sched", sc);
         // swarm subset
         std::vector<unsigned> regs; unsigned smask = (unsigned)r.below(63) + 1; unsigned acls = (unsigned)r.below(7) + 1;
-        const unsigned SV[6] = {1, 2, 4, 8, 16, 64};
         for (unsigned i = 0; i < nreg; ++i) {
-            unsigned si = 0; while (SV[si] != reg[i].S) ++si;
+            // swarm class of the element: sizes 1,2,4,8,16,64 of the first family; the alignof < sizeof family shares the classes by size
+            unsigned si = reg[i].S <= 1 ? 0u : reg[i].S <= 3 ? 1u : reg[i].S <= 4 ? 2u : reg[i].S <= 12 ? 3u : reg[i].S <= 24 ? 4u : 5u;
             unsigned ac = reg[i].A <= 16 ? 1u : reg[i].A <= 256 ? 2u : 4u;
             if (((smask >> si) & 1) && (acls & ac)) regs.push_back(i);
         }
@@ -727,18 +727,18 @@ struct HeapEngine : Engine {
                 st.setlist("res", res); st.set("tail", tail); st.setlist("reuse", reuse); st.setlist("fill", fill); st.set("z", z);
             };
             if (w < 35 || k == 0) {
-                s.op = "alloc"; s.set("S", o.S); s.set("A", o.A);
+                s.op = "alloc"; s.set("S", o.S); s.set("A", o.A); if (o.TA != o.S) s.set("TA", o.TA);
                 unsigned nc = (unsigned)r.below(16); std::size_t n = nc < 12 ? n_of_class(nc, o.S, o.A) : nc < 15 ? (std::size_t)r.below(70) : (std::size_t)r.below(4097);
                 s.setu("n", n); s.set("how", (std::int64_t)r.below(3)); heapchoices(s, true);
                 if (fm && r.chance(1, 3)) s.set("fail", 1);
             } else if (w < 55) { s.op = "dealloc"; s.setu("ref", r.below(64)); }
             else if (w < 72) { s.op = "write"; s.setu("ref", r.below(64)); unsigned pc = (unsigned)r.below(6); s.setu("pat", pc == 0 ? 0 : pc == 1 ? 255 : r.below(254) + 1); }
             else if (w < 76) { s.op = "check"; }
-            else if (w < 78 || !containers) { s.op = "misc"; s.set("S", o.S); s.set("A", o.A); }
+            else if (w < 78 || !containers) { s.op = "misc"; s.set("S", o.S); s.set("A", o.A); if (o.TA != o.S) s.set("TA", o.TA); }
             else {
                 static const char* cops[] = {"vnew", "vpush", "vpush", "vpush", "vresize", "vreserve", "vshrink", "vcopy", "vmove", "vswap", "vassign", "vclear", "vdel", "lnew", "lpush", "lpush", "lpop", "ldel"};
                 s.op = cops[r.below(sizeof cops / sizeof cops[0])];
-                if (s.op == "vnew" || s.op == "lnew") { s.set("S", o.S); s.set("A", o.A); }
+                if (s.op == "vnew" || s.op == "lnew") { s.set("S", o.S); s.set("A", o.A); if (o.TA != o.S) s.set("TA", o.TA); }
                 s.setu("c", r.below(16)); s.setu("d", r.below(16)); s.setu("m", r.chance(1, 8) ? r.below(600) : r.below(24)); s.setu("val", r.below(1u << 20));
                 heapchoices(s, false);
             }
